@@ -2,6 +2,7 @@
    and their lifting to every key of a JSON value. ASCII keys (the OCPP vocabulary). *)
 From Coq Require Import List ZArith Bool String Ascii Lia.
 From OV.Model Require Import Json.
+From OV.Gen Require Import NameRules.
 Import ListNotations.
 Local Open Scope string_scope.
 
@@ -73,9 +74,13 @@ Fixpoint re2 (s : string) : string :=
       end
   end.
 
+(* the literal key.replace(a, b) steps, in the order the code applies them: regenerated from the
+   source of the two functions on every run (Gen/NameRules.v) *)
+Definition apply_replaces (rs : list (string * string)) (key : string) : string :=
+  fold_left (fun k p => replace (fst p) (snd p) k) rs key.
+
 Definition c2s (key : string) : string :=
-  let key := replace "ocppCSMSURL" "ocpp_csms_url" key in
-  let key := replace "V2G" "_v2g" (replace "V2X" "_v2x" key) in
+  let key := apply_replaces c2s_replaces key in
   let s1 := re1 key M1Normal in
   lower (re2 s1).
 
@@ -89,16 +94,7 @@ Fixpoint camel_join (s : string) (cap : bool) : string :=
   end.
 
 Definition s2c (key : string) : string :=
-  let key := replace "soc" "SoC" key in
-  let key := replace "_v2x" "V2X" key in
-  let key := replace "ocpp_csms_url" "ocppCsmsUrl" key in
-  let key := replace "csms" "CSMS" key in
-  let key := replace "_url" "URL" key in
-  let key := replace "_SoCket" "Socket" (replace "soc" "SoC" key) in
-  let key := replace "_v2x" "V2X" key in
-  let key := replace "soc_limit_reached" "SOCLimitReached" key in
-  let key := replace "_v2g" "V2G" (replace "_v2x" "V2X" key) in
-  camel_join key false.
+  camel_join (apply_replaces s2c_replaces key) false.
 
 (* dict semantics of a re-keyed object: a later equal key overwrites the value in place *)
 Fixpoint dict_set (k : string) (v : json) (l : list (string * json)) : list (string * json) :=
